@@ -88,13 +88,16 @@ fixed(['C17', 'C07'], '1a8125c', 'SoPlexBase::operator= leaked the rational LP h
 
 fixed(['C03', 'C04'], 'e57a248', '_untransformEquality evaluated sol._redCost[col].str() / sol._dual[row].str() for a debug message although both vectors can be empty (eqtrans=1 with a basis but no dual solution): SIGSEGV in the exact solve')
 
+fixed(['C03'], '25fe3c6', '_untransformUnbounded read sol._primal[numOrigCols] of an empty solution when the unboundedness test ended with an error: SIGSEGV in the exact solve')
+fixed(['C03'], 'a76c764', '_untransformUnbounded resized _basisStatusCols twice instead of _basisStatusRows in the branch without a result')
+
 # ------------------------------------------------------------------ open findings
 UND = r'(ABORT_CYCLING|RUNNING|UNKNOWN|ERROR|SINGULAR|NO_PROBLEM|NOT_INIT)'
 # --- simplex core
 open_(SOLVE, r'(netlib\.)?(cert\.|reuse\.|resolve\.|.*\.resume\.|.*wrong-verdict|complete\.|.*harmless|basis\.|resolve-after|copy-|twins|dependent).*:\{.*solution_polishing=[12].*\}.*',
       'solution polishing (solution_polishing=1|2) returns OPTIMAL with slack != Ax, bound violations or a wrong status after its extra pivots', regex=True,
       repro='./vcheck C01 (any seed): keys C01:cert.slack:{...solution_polishing=...}')
-open_(['C01', 'C09'], r'(user\.)?cert\.redcost:\{\}\+needs\{simplifier\}',
+open_(['C01', 'C09'], r'(user\.)?cert\.redcost:\{[^}]*\}\+needs\{simplifier(,scaler)?\}',
       'default configuration: reduced cost != c - A^T y after presolve (dual postsolve of an aggregation whose basis status was swapped; same root cause as the C08 Aggregation finding); x, slacks and objective are right', regex=True)
 open_(['C04', 'C06', 'C16', 'C14'], r'(reuse\.[a-z\-]+|resolve\.status|[a-z]+\.resume|objlimit\.harmless-changes-status|state\.resolve-status)\.' + UND + r':.*',
       'warm-started / resumed solves occasionally end undecided (ABORT_CYCLING, or RUNNING/UNKNOWN after an internal exception such as XLEAVE04) where a solve from scratch decides', regex=True)
@@ -114,12 +117,20 @@ open_(SOLVE + ['C14'], r'(netlib\.)?(history-dependent|complete|cert|verdict|wro
 open_(['C01'], r'cert\.(bound|side):\{[^}]*ratiotester=0[^}]*scaler=0[^}]*\}.*',
       'textbook ratio test (ratiotester=0) with scaling switched off on a badly scaled LP: OPTIMAL is reported with a bound violated far beyond the tolerance (2e-3 on a variable boxed in +-7e-4); the final verification does not catch it', regex=True,
       repro='./vcheck C01 --seed 7: key C01:cert.bound:{ratiotester=0,representation_switch=5,scaler=0}')
+open_(['C02'], r'(netlib\.)?ray:\{[^}]*representation=2[^}]*\}.*',
+      'row representation: the primal ray returned for an unbounded LP (netlib gas11, ETA updates, Harris ratio test) does not improve the objective (c.d has the wrong sign / is zero)', regex=True,
+      repro='./vcheck C02 --seed 42: key C02:netlib.ray:{ensureray=1,factor_update_type=0,pricer=4,ratiotester=1,representation=2}')
 open_(['C17'], r'resolve-after-clearBasis-differs:.*',
       'solving the same unmodified object again after clearBasis() is not a replica of the first solve (different iteration count / vertex in 1-3% of the LPs): per-solve state survives clearBasis()', regex=True)
 # --- exact solver
 open_(['C03'], r'undecided\.[A-Z_]+:\{[^}]+\}.*',
       'exact solves with NON-default exact-solver options that keep rational reconstruction or factorization enabled can end undecided: observed ABORT_ITER with recovery_mechanism=1 (the refinement loop burns the iteration limit on a 10x10 LP), ERROR with {precision_boosting=0} in real-only sync mode and with {ratrec=0,testdualinf=1} (truth INFEASIBLE).  The default options (empty minimal cell) are not covered by this entry', regex=True,
       repro='./vcheck C03 --seed 7 and --seed 3: keys C03:undecided.ABORT_ITER:{recovery_mechanism=1}+onlyreal, C03:undecided.ERROR:{precision_boosting=0}+onlyreal, C03:undecided.ERROR:{ratrec=0,testdualinf=1}')
+open_(['C03'], r'undecided\.ERROR:\{\}\+onlyreal',
+      'default exact options, real-only sync mode: an LP whose double image is unbounded only by a rounding-level slope (1x6, coefficients 1/3, 2/3, 7000000049/3 rounded to doubles) is not decided: the floating-point solves keep reporting optimal, precision boosting runs into multiprecision_limit and the solve ends with ERROR', regex=True,
+      repro='findings/C03_default_onlyreal_undecided.cpp')
+open_(['C03', 'C04'], r'crash:asan:heap-buffer-overflow:CLUFactorRational::solveLleft\|SoPlexBase::getBasisInverseRowRational.*',
+      'getBasisInverseRowRational runs into the defective sparse left solve of the rational LU (C11 known finding: an index that cancels and refills is queued twice; heap-buffer-overflow in CLUFactorRational::solveLleft)', regex=True)
 open_(['C03', 'C04', 'C11'], r'.*lifting=1.*',
       'exact solve with lifting=1: heap-buffer-overflow / use-after-free in _lowerFinite/_transformEquality (bound-type arrays not resized for the lifted LP), wrong verdicts, invalid Farkas proofs and rays', regex=True)
 open_(['C03'], r'objvalue.*:\{.*iterative_refinement=0.*\}.*',
